@@ -212,8 +212,12 @@ func (p *Processor) ChargingDataCreate(
 		return nil, "", problemDetails
 	}
 
-	ue.Cdr[chargingSessionId] = cdr
-	ue.Records = append(ue.Records, ue.Cdr[chargingSessionId])
+	if !chargingData.OneTimeEvent {
+		// (a one-time event opens no session: its record is not reachable under any session reference,
+		// least of all the empty one)
+		ue.Cdr[chargingSessionId] = cdr
+	}
+	ue.Records = append(ue.Records, cdr)
 	ue.CULock.Unlock()
 
 	if chargingData.OneTimeEvent {
